@@ -20,14 +20,15 @@ type Event struct {
 }
 
 var (
-	mu     sync.Mutex
-	seq    uint64
-	events []Event
-	gates  = map[string]chan struct{}{} // label -> channel closed on release
-	ones   = map[string]chan struct{}{} // label -> tokens, each letting exactly one parked goroutine go
-	held   = map[string]int{}           // label -> number of goroutines currently parked
-	cond   = sync.NewCond(&mu)
-	ids    = map[interface{}]uint64{}
+	mu       sync.Mutex
+	seq      uint64
+	events   []Event
+	gates    = map[string]chan struct{}{} // label -> channel closed on release
+	ones     = map[string]chan struct{}{} // label -> tokens, each letting exactly one parked goroutine go
+	detached = map[string][]chan struct{}{}
+	held     = map[string]int{} // label -> number of goroutines currently parked
+	cond     = sync.NewCond(&mu)
+	ids      = map[interface{}]uint64{}
 )
 
 func gid() uint64 {
@@ -87,6 +88,27 @@ func Hold(label string) {
 		gates[label] = make(chan struct{})
 		ones[label] = make(chan struct{}, 1024)
 	}
+	mu.Unlock()
+}
+
+// Detach keeps the goroutines parked at label parked but lets every later arrival pass; ReleaseDetached lets them go.
+func Detach(label string) {
+	mu.Lock()
+	if g := gates[label]; g != nil {
+		detached[label] = append(detached[label], g)
+		delete(gates, label)
+		held[label] = 0
+	}
+	mu.Unlock()
+}
+
+// ReleaseDetached releases the goroutines that were parked at label when Detach was called.
+func ReleaseDetached(label string) {
+	mu.Lock()
+	for _, g := range detached[label] {
+		close(g)
+	}
+	delete(detached, label)
 	mu.Unlock()
 }
 
@@ -167,6 +189,12 @@ func Reset() {
 	for l, g := range gates {
 		close(g)
 		delete(gates, l)
+	}
+	for l, gs := range detached {
+		for _, g := range gs {
+			close(g)
+		}
+		delete(detached, l)
 	}
 	held = map[string]int{}
 	events = nil
